@@ -17,7 +17,7 @@
    on impl by the oracles of harness/syscheck.py over all explored fault-free schedules.  Still stated
    as partial in MANIFEST.json. *)
 From Coq Require Import List ZArith NArith Bool.
-From Jade Require Import Base System SystemMonitors SystemProofs SystemTheorems SystemProgress SystemFault SystemComplete.
+From Jade Require Import Base System SystemMonitors SystemProofs SystemTheorems SystemProgress SystemFault SystemComplete SystemCancelDone.
 From Jade.Props Require Import SysExamples.
 Import ListNotations.
 Open Scope N_scope.
@@ -48,6 +48,16 @@ Theorem c05_progress : forall sc tr0 tr1 p b tr2 s0 s', run sc tr0 = Some s0 -> 
   (exists e, In e tr1 /\ sbatch_ok e = true) \/ b = true.
 Proof. exact progress_run. Qed.
 Print Assumptions c05_progress.
+
+(* progress after a cancellation: nothing is submitted any more, so from a quiescent state every completion check
+   that a round reaches returns "complete" - a canceled submission completes at the first try-submit-jobs after its
+   batches have ended (same partiality as c05_progress: reaching the check is decided on the implementation) *)
+Theorem c05_canceled_submission_completes_partial : forall sc tr0 q tr1 tr2 p b tr3 s0 s',
+  run sc (tr0 ++ EMarkCanceled q :: tr1) = Some s0 -> quiescent s0 ->
+  run sc ((tr0 ++ EMarkCanceled q :: tr1) ++ tr2 ++ ECheckComplete p b :: tr3) = Some s' ->
+  b = true.
+Proof. exact canceled_submission_completes. Qed.
+Print Assumptions c05_canceled_submission_completes_partial.
 
 (* finitely many rounds: each successful submission hands at least one fresh job *)
 Theorem c05_rounds_bounded : forall sc tr s, run sc tr = Some s ->
